@@ -207,6 +207,8 @@ func init() {
 	add("C17", ruleR11_1, ruleR06_2, ruleR17_8)
 	add("C18", ruleR05_2)
 	add("C20", ruleR09_2)
+	// F26: a duplicated or delayed subscribe response must not reset a subscribed replica
+	add("C07", ruleR13_3)
 	for _, id := range []string{"C04", "C13"} {
 		registry[id].NeedsServer = registry[id].NeedsServer || id == "C13"
 	}
